@@ -301,7 +301,9 @@ func RegisteredTypes() []gopacket.LayerType {
 // much attention as the link layer), with protocol-specific shapes for name compression pointers,
 // option lists and length fields.  Returns nil if the fixture has no usable layer.
 func LayerAware(r *vh.Rand, f Fixture) ([]byte, string) {
-	data := append([]byte(nil), f.Data...)
+	// exact capacity: NewPacket clips a NoCopy buffer to its length, and offsets below are computed from capacities
+	data := make([]byte, len(f.Data))
+	copy(data, f.Data)
 	var p gopacket.Packet
 	func() {
 		defer func() { recover() }()
